@@ -6,6 +6,17 @@
 //!     runs S on a VM with execution limit N ms (null: none), measuring wall-clock time, then runs S2 on the SAME vm
 //!     -> {"r":class,"out":stdout,"wall_us":n,"sz":[5 sizes],"follow":{"r","out","sz"}}
 //!
+//!     optional "config": how the runtime is built (default: KotoVmSettings { execution_limit, .. } directly):
+//!       {"via":"vm"} | {"via":"vm-spawned"} (the script runs on vm.spawn_shared_vm())
+//!       {"via":"koto","order":[B,..]}  Koto::with_settings(KotoSettings::default().B1().B2()..) with the builder methods
+//!           applied in that order; B in limit|stdout|stderr|stdin|args|callback|inherit_args|inherit_io|run_tests_off.
+//!           The script runs through Koto::compile_and_run (errors arrive as text there: a timeout is recognised by
+//!           the Display prefix of ErrorKind::Timeout).  When the chain leaves NO limit configured although one was
+//!           requested, a script marked "nonterminating" is not started: "r":"ENoLimitConfigured".
+//!
+//! {"kind":"cfg","order":[B,..],"limit_ms":N}
+//!     only builds the settings -> {"limit_ms": configured execution limit in ms or null, "run_import_tests": bool}
+//!
 //! {"kind":"h","limit_ms":N?,"ops":[OP,...]}
 //!     performs a history of host operations on ONE vm; after every operation reports the result class,
 //!     captured output, the five stack sizes (hook `verif_stack_sizes`) and the canonical exports map
@@ -241,9 +252,16 @@ fn history(case: &Value) -> Value {
 }
 
 fn timeout_case(case: &Value) -> Value {
+    let via = case["config"]["via"].as_str().unwrap_or("vm");
+    if via == "koto" {
+        return timeout_case_koto(case);
+    }
     // "limit_ms": null => no execution limit
     let limit = case.get("limit_ms").and_then(|c| c.as_u64()).map(Duration::from_millis);
     let mut rt = Rt::new(limit);
+    if via == "vm-spawned" {
+        rt.vm = rt.vm.spawn_shared_vm();
+    }
     let src = case["src"].as_str().unwrap_or("").to_string();
     let t0 = Instant::now();
     let r = guarded(AssertUnwindSafe(|| res(rt.compile_and_run(&src, None, true))));
@@ -267,6 +285,85 @@ fn timeout_case(case: &Value) -> Value {
     json!({"r": r, "out": out, "wall_us": wall.as_micros() as u64, "sz": sz, "follow": follow})
 }
 
+fn build_settings(order: &[Value], limit: Option<Duration>, capture: &Capture) -> koto::KotoSettings {
+    let mut s = koto::KotoSettings::default();
+    for b in order {
+        s = match b.as_str().unwrap_or("") {
+            "limit" => match limit {
+                Some(l) => s.with_execution_limit(l),
+                None => s,
+            },
+            "stdout" => s.with_stdout(capture.clone()),
+            "stderr" => s.with_stderr(capture.clone()),
+            "stdin" => s.with_stdin(capture.clone()),
+            "args" => s.with_args(["a", "b"]),
+            "callback" => s.with_module_imported_callback(|_p: &std::path::Path| {}),
+            "inherit_args" => s.inherit_args(),
+            "inherit_io" => s.inherit_io(),
+            "run_tests_off" => {
+                let mut s = s;
+                s.run_tests = false;
+                s
+            }
+            _ => s,
+        };
+    }
+    s
+}
+
+fn cfg_case(case: &Value) -> Value {
+    let limit = case.get("limit_ms").and_then(|c| c.as_u64()).map(Duration::from_millis);
+    let empty = vec![];
+    let s = build_settings(case["order"].as_array().unwrap_or(&empty), limit, &Capture::new());
+    json!({"limit_ms": s.vm_settings.execution_limit.map(|d| d.as_millis() as u64),
+           "run_import_tests": s.vm_settings.run_import_tests, "run_tests": s.run_tests})
+}
+
+fn koto_result(r: koto::Result<KValue>) -> String {
+    match r {
+        Ok(v) => canon(&v),
+        Err(koto::Error::CompileError { .. }) => "ECompile".into(),
+        Err(e) => {
+            let m = e.to_string();
+            if m.starts_with("execution timed out") { "ETimeout".into() } else { "EString".into() }
+        }
+    }
+}
+
+/// the `t` kind with the runtime built through the public Koto / KotoSettings API
+fn timeout_case_koto(case: &Value) -> Value {
+    let limit = case.get("limit_ms").and_then(|c| c.as_u64()).map(Duration::from_millis);
+    let capture = Capture::new();
+    let empty = vec![];
+    let settings = build_settings(case["config"]["order"].as_array().unwrap_or(&empty), limit, &capture);
+    let configured = settings.vm_settings.execution_limit;
+    let nonterminating = case.get("nonterminating").and_then(|c| c.as_bool()).unwrap_or(false);
+    if nonterminating && limit.is_some() && configured.is_none() {
+        return json!({"r": "ENoLimitConfigured", "out": "", "wall_us": 0, "sz": [0, 0, 0, 0, 0], "follow": Value::Null,
+                      "configured_ms": Value::Null});
+    }
+    let mut koto = koto::Koto::with_settings(settings);
+    let src = case["src"].as_str().unwrap_or("").to_string();
+    let t0 = Instant::now();
+    let r = guarded(AssertUnwindSafe(|| koto_result(koto.compile_and_run(src.as_str()))));
+    let wall = t0.elapsed();
+    let r = match r {
+        Ok(r) => r,
+        Err(msg) => return json!({"panic": msg, "at": last_panic_location(), "wall_us": wall.as_micros() as u64}),
+    };
+    let out = capture.take();
+    let (a, b, c, d, e) = koto.verif_stack_sizes();
+    let follow = match case.get("follow").and_then(|f| f.as_str()) {
+        Some(f) => match guarded(AssertUnwindSafe(|| koto_result(koto.compile_and_run(f)))) {
+            Ok(fr) => json!({"r": fr, "out": capture.take()}),
+            Err(msg) => json!({"panic": msg, "at": last_panic_location()}),
+        },
+        None => Value::Null,
+    };
+    json!({"r": r, "out": out, "wall_us": wall.as_micros() as u64, "sz": [a, b, c, d, e], "follow": follow,
+           "configured_ms": configured.map(|d| d.as_millis() as u64)})
+}
+
 fn main() {
     quiet_panics();
     let cases = read_cases();
@@ -275,6 +372,7 @@ fn main() {
         let v = match case["kind"].as_str() {
             Some("t") => timeout_case(case),
             Some("h") => history(case),
+            Some("cfg") => cfg_case(case),
             _ => json!({"bad_case": true}),
         };
         let mut w = stdout.lock();
